@@ -481,7 +481,7 @@ pub fn run(ctx: &RunCtx) -> PropResult {
     let runf = |c: &HarmCase, d: &Path| run_harm(c, d, &findings);
     run_replays::<HarmCase, _>(ctx, "harm", &ctx.verif_dir.join("replays").join("C07"), runf, &mut report);
     let runf = |c: &HarmCase, d: &Path| run_harm(c, d, &findings);
-    run_generated(ctx, "harm", ctx.tier.pick(2000, 40_000), harm_strategy, runf, &sample, &mut report);
+    run_generated(ctx, "harm", ctx.tier.pick(4000, 40_000), harm_strategy, runf, &sample, &mut report);
     PropResult {
         report,
         level: "exploration",
